@@ -1412,7 +1412,12 @@ class Build(Opcode):
     def run(self, interpreter: Interpreter):
         argument = interpreter.stack.pop()
         obj = interpreter.stack.pop()
-        obj_name = interpreter.new_variable(obj)
+        if isinstance(obj, ast.Name):
+            # already a variable or an imported name: do not hide it behind an alias, or a later
+            # call through the alias (`_var0 = eval; _var0(...)`) is invisible to the analyses
+            obj_name = obj.id
+        else:
+            obj_name = interpreter.new_variable(obj)
         interpreter.module_body.append(
             ast.Expr(
                 ast.Call(
